@@ -467,7 +467,11 @@ func (w *worker) one(p *prepared, limit int, withWriter bool) {
 	}
 	if failed {
 		if o.Err != "" {
-			w.errs[pkgName[p.kind]+"|"+vs+"|"+panicClass(o.Err)]++
+			lc := ""
+			if limit < minLimit[p.kind] {
+				lc = "(limit<min)"
+			}
+			w.errs[pkgName[p.kind]+"|"+vs+lc+"|"+panicClass(o.Err)]++
 			if p.valid && limit >= minLimit[p.kind] {
 				w.errOnValid(p, limit, o.Err)
 			}
